@@ -143,7 +143,7 @@ func RandValue(r *rand.Rand, in model.Input, addrs [][]byte) model.AV {
 		return v
 	}
 	switch {
-	case t == "tuple":
+	case model.IsTuple(t):
 		v := model.AV{Type: t}
 		for _, c := range in.Components {
 			v.Elems = append(v.Elems, RandValue(r, c, addrs))
@@ -207,6 +207,17 @@ func MakeFiller(p *Plan, src string) node.Filler {
 			}
 			tx := node.Tx{Hash: node.Keccak([]byte("seedtx"), b.Hash, []byte(sd.Event.Name)), From: nonZeroBytes(r, 20), To: nonZeroBytes(r, 20), Input: []byte{1}, Value: big.NewInt(0), GasPrice: big.NewInt(1), EffGasPrice: big.NewInt(1), Status: 1}
 			for ai, a := range addrs {
+				if len(sd.Only) > 0 {
+					in := false
+					for _, k := range sd.Only {
+						if k == ai {
+							in = true
+						}
+					}
+					if !in {
+						continue
+					}
+				}
 				vals := make([]model.AV, len(sd.Event.Inputs))
 				for i, in := range sd.Event.Inputs {
 					vals[i] = RandValue(r, in, nil)
@@ -302,7 +313,21 @@ func MakeFiller(p *Plan, src string) node.Filler {
 				}
 				vals := make([]model.AV, len(es.Event.Inputs))
 				for i, in := range es.Event.Inputs {
-					vals[i] = RandValue(r, in, addrs)
+					use := addrs
+					for _, sd := range c.Seeded {
+						if len(sd.Only) > 0 && sd.AddrInput == i && sd.Event.Name == es.Event.Name {
+							// a referenced table seeded with part of the pool keeps
+							// that membership: later logs of the event only repeat
+							// seeded addresses (or carry addresses outside the pool)
+							use = nil
+							for _, k := range sd.Only {
+								if k < len(addrs) {
+									use = append(use, addrs[k])
+								}
+							}
+						}
+					}
+					vals[i] = RandValue(r, in, use)
 					if c.MarkStrings && in.Type == "string" {
 						vals[i].Str = c15Marker + vals[i].Str
 					}
